@@ -122,7 +122,17 @@ def gen_case(rng, quick=True, part=None):
         return case
     if part == 'converge':
         case['engine'] = 'TwoSiteDMRGEngine'
-        o['mixer'] = rng.choice([True, 'DensityMatrixMixer'])
+        o['mixer'] = rng.choice([True, 'DensityMatrixMixer', 'SubspaceExpansion', 'SubspaceExpansion'])
+        case['model'].pop('explicit_plus_hc', None) if o['mixer'] == 'SubspaceExpansion' else None
+        if rng.random() < 0.5:
+            # range-2-only flip-flop couplings: the plain two-site update cannot leave the product state, the mixer
+            # (one-sided expansion of the bond that is kept) is essential
+            Lr = rng.choice([4, 4, 6, 8] if quick else [4, 6, 8, 8])
+            case['kind'] = 'Range2'
+            case['model'] = dict(L=Lr, bc_MPS='finite', J2=1.0, J1z=rng.choice([0.0, 0.3, -0.2, 0.1]), conserve='Sz')
+            pat = rng.choice([['up', 'up', 'down', 'down'], ['up', 'down', 'down', 'up'], ['down', 'up', 'up', 'down'],
+                              ['up', 'down', 'up', 'down']])
+            case['init'] = (pat * Lr)[:Lr]
         o['trunc_params'] = {'chi_max': 200, 'svd_min': 1e-14}
         o['max_sweeps'] = 14
         o['min_sweeps'] = 6
@@ -163,11 +173,44 @@ def build_model(kind, p):
     from tenpy.models.xxz_chain import XXZChain
     from tenpy.models.spins import SpinChain
     from tenpy.models.fermions_spinless import FermionChain
-    cls = {'TFI': TFIChain, 'XXZ': XXZChain, 'Spin': SpinChain, 'Fermion': FermionChain}[kind]
     p = dict(p)
+    if kind == 'Range2':
+        return range_two_chain()(p)
+    cls = {'TFI': TFIChain, 'XXZ': XXZChain, 'Spin': SpinChain, 'Fermion': FermionChain}[kind]
     if kind == 'Fermion' and isinstance(p.get('J'), list):
         p['J'] = complex(*p['J'])
     return cls(p)
+
+
+_RANGE2 = []
+
+
+def range_two_chain():
+    """spin-1/2 chain (Sz conserved) whose flip-flop couplings have range 2 only:
+    H = J2 sum_i S_i.S_{i+2} + J1z sum_i Sz_i Sz_{i+1}.  A two-site update on neighbouring sites cannot leave a product
+    state (the two sites are not coupled by a flip-flop term and the environment is a product state): reaching the
+    ground state relies on the mixer enlarging the bond that is kept for the next update."""
+    if _RANGE2:
+        return _RANGE2[0]
+    from tenpy.models.lattice import Chain
+    from tenpy.models.model import CouplingMPOModel
+    from tenpy.networks.site import SpinHalfSite
+
+    class RangeTwoChain(CouplingMPOModel):
+        default_lattice = Chain
+        force_default_lattice = True
+
+        def init_sites(self, model_params):
+            return SpinHalfSite(conserve=model_params.get('conserve', 'Sz'))
+
+        def init_terms(self, model_params):
+            J2 = model_params.get('J2', 1.0)
+            J1z = model_params.get('J1z', 0.0)
+            self.add_coupling(J2 / 2.0, 0, 'Sp', 0, 'Sm', 2, plus_hc=True)
+            self.add_coupling(J2, 0, 'Sz', 0, 'Sz', 2)
+            self.add_coupling(J1z, 0, 'Sz', 0, 'Sz', 1)
+    _RANGE2.append(RangeTwoChain)
+    return RangeTwoChain
 
 
 def snapshot(env):
@@ -220,6 +263,30 @@ def traced_engine(cls, rec, check_fresh):
                 rec['stale'] = max(rec.get('stale', 0.0), float(dL / sc), float(dR / sc))
                 if max(dL, dR) / sc > 1e-9 and 'stale_at' not in rec:
                     rec['stale_at'] = [len(rec['sweeps']) - 1, int(self.i0), bool(self.move_right), float(dL / sc), float(dR / sc)]
+
+        def mixed_svd(self, theta):
+            # contract of the decomposition (docstrings of `mixed_svd` / `Mixer.mix_and_decompose_2site`): the tensor
+            # that is kept as new A (resp. B) tensor and contracted into the growing environment — U when LP is
+            # updated, VH when RP is updated — is an isometry, with or without mixer, whatever the other one is
+            U, S, VH, err, S_a = super().mixed_svd(theta)
+            upL, upR = self.update_LP_RP
+            defect, which = 0.0, None
+            if upL:
+                g = npc.tensordot(U.conj(), U, axes=[['(vL*.p*)'], ['(vL.p)']])
+                dU = float(npc.norm(g - npc.eye_like(g, labels=g.get_leg_labels())))
+                defect, which = dU, 'U'
+            if upR:
+                g = npc.tensordot(VH, VH.conj(), axes=[['(p.vR)'], ['(p*.vR*)']])
+                dV = float(npc.norm(g - npc.eye_like(g, labels=g.get_leg_labels())))
+                if dV > defect:
+                    defect, which = dV, 'VH'
+            rec['iso_checked'] = rec.get('iso_checked', 0) + 1
+            if defect > rec.get('iso', 0.0):
+                rec['iso'] = defect
+                if defect > 1e-8 and 'iso_at' not in rec:
+                    rec['iso_at'] = [len(rec['sweeps']) - 1, int(self.i0), bool(self.move_right), [bool(upL), bool(upR)],
+                                     which, type(self.mixer).__name__, defect]
+            return U, S, VH, err, S_a
 
         def mixer_cleanup(self):
             # `mixer_cleanup` is documented as a pure gauge change (SVD of the bond matrices absorbed into the
@@ -328,6 +395,9 @@ def run_case(case):
     out['effH'] = min(rec.get('effH', 0.0), 1e300)
     out['effH_at'] = rec.get('effH_at')
     out['effH_checked'] = rec.get('effH_checked', 0)
+    out['iso'] = rec.get('iso', 0.0)
+    out['iso_at'] = rec.get('iso_at')
+    out['iso_checked'] = rec.get('iso_checked', 0)
     psi0 = MPS.from_product_state(M.lat.mps_sites(), case['init'], bc=p['bc_MPS'])
     E0, gs, ed, gap, dim = exact_ground_state(M, psi0, all_sectors=case['opts'].get('diag_method') == 'ED_all')
     out['E0'] = E0
@@ -441,6 +511,8 @@ def run_infinite_case(case):
     out['E_mpo'] = float(np.real(M.H_MPO.expectation_value(psi)))
     out['chi'] = [int(c) for c in psi.chi]
     out['sweeps_done'] = int(eng.sweeps)
+    out['iso_at'] = rec.get('iso_at')
+    out['iso_checked'] = rec.get('iso_checked', 0)
     return out
 
 
@@ -457,6 +529,22 @@ def gen_effh_case(rng):
                 chi=rng.choice([2, 3, 4]), nseed=rng.getrandbits(32), opts={})
 
 
+def random_mps(M, init, chi, dtype=complex, rounds=3):
+    """random MPS in the charge sector of the product state `init`: a bounded number of random-unitary TEBD rounds
+    (`MPS.from_random_unitary_evolution` keeps evolving for 1000 rounds when `chi` is not reachable in the sector)"""
+    from tenpy.algorithms.tebd import RandomUnitaryEvolution
+    from tenpy.networks.mps import MPS
+    psi = MPS.from_product_state(M.lat.mps_sites(), init, bc='finite', dtype=dtype,
+                                 unit_cell_width=M.lat.mps_unit_cell_width)
+    eng = RandomUnitaryEvolution(psi, dict(N_steps=2, trunc_params={'chi_max': chi}))
+    for _ in range(rounds):
+        eng.run()
+        if max(psi.chi) >= chi:
+            break
+    psi.canonical_form()
+    return psi
+
+
 def run_effh_case(case):
     """`to_matrix()` of OneSiteH / TwoSiteH vs the matrix of `matvec` on basis vectors, for combine True/False and both
     move directions, at every position of a random complex MPS (random unitary evolution of the product state, so the
@@ -468,7 +556,7 @@ def run_effh_case(case):
     kind, p = case['kind'], case['model']
     M = build_model(kind, p)
     np.random.seed(case['nseed'])
-    psi = MPS.from_random_unitary_evolution(M.lat.mps_sites(), case['chi'], case['init'], bc='finite', dtype=complex)
+    psi = random_mps(M, case['init'], case['chi'])
     env = MPOEnvironment(psi, M.H_MPO, psi)
     L = p['L']
     out = {'effH': 0.0, 'effH_checked': 0, 'sweeps_done': 0, 'complex_env': False}
